@@ -31,7 +31,7 @@ import (
 )
 
 // C19 — exporting and re-importing genesis preserves every custom module's state.
-type C19 struct{}
+type C19 struct{ Deep bool } // Deep: starts from a state holding one record of every kind; events add second instances
 
 type c19Model struct {
 	Blocks int
@@ -56,12 +56,39 @@ func c19Config() world.Config {
 	}
 }
 
-func (C19) ID() string           { return "C19" }
-func (C19) Name() string         { return "C19/export-import" }
+func (C19) ID() string { return "C19" }
+func (s C19) Name() string {
+	if s.Deep {
+		return "C19/export-import-second-instances"
+	}
+	return "C19/export-import"
+}
 func (C19) Config() world.Config { return c19Config() }
 func (C19) Stores() []string     { return c19Stores }
-func (C19) Init(env world.Env) mc.Model {
-	return c19Model{At: map[string]int{}}
+func (s C19) Init(env world.Env) mc.Model {
+	m := c19Model{At: map[string]int{}}
+	if s.Deep {
+		for _, k := range c19Kinds {
+			if c19IsSecond(k.name) {
+				continue
+			}
+			if !c19Do(env, &m, k.name) {
+				panic("scenario setup: " + k.name + " failed")
+			}
+			m.Done = append(m.Done, k.name)
+			m.At[k.name] = 0
+		}
+		sort.Strings(m.Done)
+		if bp := env.NextBlock(6 * time.Second); bp != nil {
+			panic(bp.Value)
+		}
+		m.Blocks = 1
+	}
+	return m
+}
+
+func c19IsSecond(name string) bool {
+	return strings.HasSuffix(name, "Again") || strings.HasSuffix(name, "Second")
 }
 
 // one event per record kind; an event is enabled once its prerequisites were performed
@@ -80,14 +107,19 @@ var c19Kinds = []struct {
 	// same sender and recipient at a later time, a second name / bid / feed of the same account)
 	{"PostFileAgain", []string{"PostFile"}}, {"NotifyAgain", []string{"Notify"}}, {"RegisterSecond", []string{"Register"}},
 	{"BidSecond", []string{"Bid"}}, {"CreateFeedSecond", []string{"CreateFeed"}},
+	{"BuyStorageSecond", []string{"BuyStorage"}},                               // a second plan and payment gauge
+	{"AttReqSecond", []string{"AttReq"}}, {"RepReqSecond", []string{"RepReq"}}, // a second open form of each kind
 }
 
-func (C19) Events(env world.Env, mm mc.Model) []string {
+func (s C19) Events(env world.Env, mm mc.Model) []string {
 	m := mm.(c19Model)
 	var evs []string
 	for _, k := range c19Kinds {
 		if has(m.Done, k.name) {
 			continue
+		}
+		if !s.Deep && (k.name == "BuyStorageSecond" || k.name == "AttReqSecond" || k.name == "RepReqSecond") {
+			continue // reachable only far beyond the depth of the search from the empty state: explored by the Deep variant
 		}
 		ok := true
 		for _, p := range k.pre {
@@ -104,7 +136,11 @@ func (C19) Events(env world.Env, mm mc.Model) []string {
 			evs = append(evs, k.name)
 		}
 	}
-	if m.Blocks < 2 {
+	lim := 2
+	if s.Deep {
+		lim = 3
+	}
+	if m.Blocks < lim {
 		evs = append(evs, "NextBlock")
 	}
 	return evs
@@ -133,6 +169,12 @@ func c19Do(env world.Env, m *c19Model, ev string) bool {
 		msg = rnstypes.NewMsgRegisterName(u, "beta.jkl", 2, "{}", false)
 	case "BidSecond":
 		msg = rnstypes.NewMsgBid(b, "beta.jkl", sdk.NewInt64Coin("ujkl", 6))
+	case "BuyStorageSecond":
+		msg = storagetypes.NewMsgBuyStorage(b, b, 60, 2_000_000_000, "ujkl")
+	case "AttReqSecond":
+		msg = storagetypes.NewMsgRequestAttestationForm(w.A("P2").Bech, f.merkle, u, m.Start)
+	case "RepReqSecond":
+		msg = storagetypes.NewMsgRequestReportForm(u, w.A("P1").Bech, f.merkle, u, m.Start)
 	case "CreateFeedSecond":
 		msg = oracletypes.NewMsgCreateFeed(u, "jklprice2")
 	case "Proof":
@@ -286,6 +328,13 @@ func c19ModuleRoundTrip(w *world.World, ctx sdk.Context) (vs []mc.Viol, kinds in
 			return bz, cdc.MustMarshalJSON(jklmint.ExportGenesis(tctx, tw.App.MintKeeper)), nil
 		}},
 	}
+	baseline := map[string]map[string]bool{}
+	for _, m := range mods {
+		baseline[m.store] = map[string]bool{}
+		for _, kv := range tw.DumpStore(tctx, m.store) {
+			baseline[m.store][string(kv.K)] = true
+		}
+	}
 	for _, m := range mods {
 		var first, second []byte
 		var err error
@@ -304,16 +353,41 @@ func c19ModuleRoundTrip(w *world.World, ctx sdk.Context) (vs []mc.Viol, kinds in
 		if !bytes.Equal(first, second) {
 			vs = append(vs, viol("exporting-again-yields-the-same-genesis", "store="+m.store, "module %s: the genesis exported after import differs from the one imported", m.store))
 		}
-		vs = append(vs, c19CompareStore(w, ctx, tw, tctx, m.store, "module-level", &kinds)...)
+		vs = append(vs, c19CompareStore(w, ctx, tw, tctx, m.store, "module-level", &kinds, baseline[m.store])...)
 	}
 	return vs, kinds
 }
 
-func c19CompareStore(w *world.World, ctx sdk.Context, tw *world.World, tctx sdk.Context, store, level string, kinds *int) []mc.Viol {
+// baseline: the keys the target held before the import (module-level: a fresh node's own default state); nil = none.
+func c19CompareStore(w *world.World, ctx sdk.Context, tw *world.World, tctx sdk.Context, store, level string, kinds *int, baseline map[string]bool) []mc.Viol {
 	var vs []mc.Viol
 	after := map[string][]byte{}
 	for _, kv := range tw.DumpStore(tctx, store) {
 		after[string(kv.K)] = kv.V
+	}
+	// records that exist only after the import: allowed only for indexes the import materialises (ActiveProviders)
+	srcKeys := map[string]bool{}
+	for _, kv := range w.DumpStore(ctx, store) {
+		srcKeys[string(kv.K)] = true
+	}
+	spurious := map[string]int{}
+	spuriousEx := map[string]string{}
+	for k := range after {
+		if srcKeys[k] || baseline[k] {
+			continue
+		}
+		pfx := c19Prefix(store, []byte(k))
+		if store == "storage" && strings.HasPrefix(pfx, "ActiveProviders") {
+			continue
+		}
+		spurious[pfx]++
+		if spuriousEx[pfx] == "" || k < spuriousEx[pfx] {
+			spuriousEx[pfx] = k
+		}
+	}
+	for _, pfx := range world.SortedKeys(spurious) {
+		vs = append(vs, viol("import-adds-no-record-of-its-own", fmt.Sprintf("spurious store=%s prefix=%s", store, pfx),
+			"%s: %d records under %s:%s exist after export -> import that the exporting node did not hold (e.g. %q)", level, spurious[pfx], store, pfx, spuriousEx[pfx]))
 	}
 	missing := map[string]int{}
 	changed := map[string]int{}
@@ -408,7 +482,7 @@ func c19NodeLevel(r *mc.Run, paths [][]string) {
 		kinds := 0
 		clean := true
 		for _, s := range c19Stores {
-			for _, v := range c19CompareStore(w, src, nw, dst, s, "node-level", &kinds) {
+			for _, v := range c19CompareStore(w, src, nw, dst, s, "node-level", &kinds, nil) {
 				clean = false
 				if _, dup := found[v.Sig]; !dup {
 					found[v.Sig] = mc.Record{Clause: v.Clause, Signature: v.Sig, Detail: v.Detail, Path: path}
@@ -455,10 +529,13 @@ func jsonSection(app []byte, module string) string {
 
 func init() {
 	regScenario(C19{})
+	regScenario(C19{Deep: true})
 	Props["C19"] = Prop{Level: "model_checking", Run: func(r *mc.Run, tier string) {
 		r.Rules = append(r.Rules, "BFS over one event per record kind of the six custom modules (provider, collateral, plan+gauge, file, proofs, attestation form, report form; name+primary name, sub-record, bid, listing, init; file-tree root, pubkey, entry; feed; notification, block; minted blocks via NextBlock) in every order allowed by their prerequisites; in every reached state each module is exported, JSON round-tripped, validated and imported into a branch of a fresh node and every (key, value) of its store is compared by record kind, and the export is repeated; selected histories are additionally committed at the ABCI seam, exported with ExportAppStateAndValidators and imported by InitChain on a fresh node")
 		r.Assumptions = append(r.Assumptions, "a superset after import is allowed (e.g. materialised ActiveProviders)", "violations are keyed by (module store, record-kind prefix)")
 		res := r.AddExplore(C19{}, opts(tier, 5, 9, 50, 1200, 20, 200))
+		r.Rules = append(r.Rules, "second-instance variant: from a state holding one record of every kind, BFS over the events that add a second instance (same file in a later block, second notification, name, bid, feed, plan+gauge, attestation form, report form) and NextBlock, same round-trip oracle; a record that exists only after the import is a violation unless it is a materialised ActiveProviders entry")
+		r.AddExplore(C19{Deep: true}, opts(tier, 4, 9, 40, 600, 20, 100))
 		paths := [][]string{}
 		all := []string{}
 		for _, k := range c19Kinds {
@@ -466,7 +543,7 @@ func init() {
 		}
 		var first, again []string
 		for _, e := range all {
-			if strings.HasSuffix(e, "Again") || strings.HasSuffix(e, "Second") {
+			if c19IsSecond(e) {
 				again = append(again, e)
 			} else {
 				first = append(first, e)
